@@ -13,7 +13,7 @@ Here is a semantic property the framework is supposed to satisfy:
 
 {txt}
 
-Task: make ONE realistic change to the framework's non-test source code in the worktree that BREAKS this property while (1) the code still compiles, and (2) the existing test suite still passes: run at least the tests of every package you touched, e.g. `cd {wt} && go test -mod=mod -vet=off -count=1 ./middleware/cors/...` (and `go test -mod=mod -vet=off -count=1 .` for the root package if you touched it; the full suite `go test -mod=mod -vet=off -count=1 -timeout 25m ./...` takes ~40 s; 4 tests in middleware/proxy named Test_Proxy_Do* fail offline even without any change — ignore exactly those). Do not edit existing tests.
+Task: make ONE realistic change to the framework's non-test source code in the worktree that BREAKS this property while (1) the code still compiles, and (2) the existing test suite still passes: run at least the tests of every package you touched, e.g. `cd {wt} && go test -mod=mod -vet=off -count=1 ./middleware/<name>/...` (or `go test -mod=mod -vet=off -count=1 .` for the root package if you touched it; the full suite `go test -mod=mod -vet=off -count=1 -timeout 25m ./...` takes ~40 s; 4 tests in middleware/proxy named Test_Proxy_Do* fail offline even without any change — ignore exactly those). Do not edit existing tests.
 
 The change should look like something a developer could plausibly write (a refactor slip, an optimisation, an off-by-one, a dropped guard, a wrong operand, a reordered statement), and it should need something SPECIFIC to manifest — a particular interleaving, a multi-step sequence of operations, an unusual input, a boundary value, a particular configuration combination, or two cooperating sites that each look fine alone — not something ordinary use would expose at once. {angle}
 
